@@ -1011,26 +1011,9 @@ impl Entry {
             )
         };
 
-        let new_root = SyntaxNode::new_root_mut(
-            self.0.replace_with(
-                self.0
-                    .green()
-                    .splice_children(position..position, new_children),
-            ),
-        );
-
-        if let Some(parent) = self.0.parent() {
-            parent.splice_children(self.0.index()..self.0.index() + 1, vec![new_root.into()]);
-            self.0 = parent
-                .children_with_tokens()
-                .nth(self.0.index())
-                .unwrap()
-                .clone()
-                .into_node()
-                .unwrap();
-        } else {
-            self.0 = new_root;
-        }
+        // edit the entry in place: it stays where it is in its field
+        self.0
+            .splice_children(position..position, detached(new_children));
     }
 }
 
